@@ -345,12 +345,25 @@ func (env *Env) tr(e *E) Val {
 			var pats []string
 			for _, tr := range e.Trig {
 				var ts []string
+				okPat := true
 				for _, t := range tr {
-					ts = append(ts, inner.tr(t).S)
+					pt := inner.tr(t).S
+					// a trigger must be built from function applications only
+					for _, bad := range []string{"(ite ", "(and ", "(or ", "(not ", "(=> ", "(= ", "(< ", "(<= "} {
+						if strings.Contains(pt, bad) {
+							okPat = false
+						}
+					}
+					ts = append(ts, pt)
+				}
+				if !okPat {
+					continue // let the solver infer triggers for this quantifier
 				}
 				pats = append(pats, ":pattern ("+strings.Join(ts, " ")+")")
 			}
-			b = "(! " + b + " " + strings.Join(pats, " ") + ")"
+			if len(pats) > 0 {
+				b = "(! " + b + " " + strings.Join(pats, " ") + ")"
+			}
 		}
 		return Val{S: "(" + e.S + " (" + strings.Join(decl, " ") + ") " + b + ")", Sort: "Bool"}
 	}
@@ -790,6 +803,14 @@ func (env *Env) trCall(e *E) Val {
 			sfail("cast: unknown type %s", e.A[1].S)
 		}
 		return Val{S: x.S, Sort: "Int", G: types.NewPointer(obj.Type())}
+	case "unboxStr": // the string stored in interface value i
+		x := arg(0)
+		d := "(declare-fun unbox_Str (Int) Str)"
+		if !env.m.extraSeen[d] {
+			env.m.extraSeen[d] = true
+			env.m.extraDecl = append(env.m.extraDecl, d)
+		}
+		return Val{S: "(unbox_Str " + x.S + ")", Sort: "Str", G: types.Typ[types.String]}
 	case "sameStr": // structural identity of two string values (same array window)
 		a, b := env.view(arg(0)), env.view(arg(1))
 		return Val{S: eq(a.S, b.S), Sort: "Bool"}
